@@ -277,6 +277,13 @@ func (s *Error) UnmarshalXML(d *xml.Decoder, start xml.StartElement) error {
 			if err = d.Skip(); err != nil {
 				return err
 			}
+		default:
+			// Application specific conditions (and anything else that we do not
+			// know about) are skipped as a whole so that their end element is not
+			// mistaken for the end of the stream error.
+			if err = d.Skip(); err != nil {
+				return err
+			}
 		}
 	}
 }
